@@ -18,6 +18,7 @@ type LocalDB struct {
 	intx         bool
 	hasbegin     bool
 	kvs          []*types.KeyValue
+	txkvs        int // len(kvs) when the current transaction began
 	txid         *types.Int64
 	client       queue.Client
 	api          client.QueueProtocolAPI
@@ -84,6 +85,7 @@ func (l *LocalDB) Begin() {
 	l.keys = nil
 	l.txcache.Reset()
 	l.hasbegin = false
+	l.txkvs = len(l.kvs)
 }
 
 func (l *LocalDB) begin() {
@@ -107,6 +109,7 @@ func (l *LocalDB) save() error {
 			return err
 		}
 		l.kvs = nil
+		l.txkvs = 0
 	}
 	return nil
 }
@@ -147,6 +150,10 @@ func (l *LocalDB) Rollback() {
 		if err != nil {
 			panic(err)
 		}
+	}
+	// 丢弃本事务尚未发送到远端的写入, 否则会在下一次save时被写入
+	if l.intx && l.txkvs <= len(l.kvs) {
+		l.kvs = l.kvs[:l.txkvs]
 	}
 	l.resetTx()
 }
